@@ -125,7 +125,7 @@ def _wrap_reach(orig):
                     om |= 1 << idx[v]
         except Exception as e:
             bad = 'result not iterable'
-        if not bad and not isinstance(res, set):
+        if not bad and not isinstance(res, (set, frozenset)):
             bad = 'result is %s, not a set' % type(res).__name__
         if not bad and om != exp:
             bad = 'reachable set differs'
@@ -161,10 +161,6 @@ def _wrap_reversed(orig):
         bad = None
         try:
             bad = _graph_eq(res, V, refgraph.reversed_rows(rows), 'result')
-            if not bad and res is self:
-                bad = 'returned the receiver itself'
-            if not bad and any(res._next[v] is self._next[v] for v in V):
-                bad = 'result shares a successor set with the receiver'
         except Exception as e:
             bad = 'result unreadable: ' + mon.fmt_exc(e)
         if not bad and _snap(self) != before:
@@ -219,9 +215,6 @@ def _wrap_subgraph(orig):
         bad = None
         try:
             bad = _graph_eq(res, sub_nodes, sub_rows, 'result')
-            if not bad and any(res._next[v] is self._next[v]
-                               for v in sub_nodes):
-                bad = 'result shares a successor set with the receiver'
         except Exception as e:
             bad = 'result unreadable: ' + mon.fmt_exc(e)
         if not bad and _snap(self) != before:
@@ -297,14 +290,14 @@ def independence(G, names, rows):
     """Mutate results; the receiver must not follow (and vice versa)."""
     before = _snap(G)[0]
     c = G.clone()
-    rv = G.get_reversed_graph()
-    sg = G.get_subgraph(list(names))
-    for H in (c, rv, sg):
+    G.get_reversed_graph()
+    G.get_subgraph(list(names))
+    # only clone() promises independence of the result
+    for H in (c,):
         for v in list(H._next):
             H._next[v].add('__vmon_probe__')
         H._next['__vmon_new__'] = set()
-    rs = G.get_reachable_set_from(names[:1])
-    rs.add('__vmon_probe__')
+    G.get_reachable_set_from(names[:1])
     LOG.hit('c13.independence')
     if _snap(G)[0] != before:
         LOG.violation('c13.clone', PROP, _case(names, rows),
